@@ -224,7 +224,8 @@ extern "C" int __wrap_accept(int fd, struct sockaddr *sa, socklen_t *sl) {
 }
 extern "C" int __wrap_epoll_ctl(int ep, int op, int fd, struct epoll_event *ev) {
   Act a = next_act(SYS_EPOLL_CTL, fd); int r;
-  if (a.act == ACT_FAIL) { errno = (int)a.arg; r = -1; } else r = __real_epoll_ctl(ep, op, fd, ev);
+  // arg | SIM_NOT_ON_DEL: the failure applies to ADD/MOD only (a kernel never fails a DEL with ENOMEM/ENOSPC/EEXIST)
+  if (a.act == ACT_FAIL && !((a.arg & SIM_NOT_ON_DEL) && op == EPOLL_CTL_DEL)) { errno = (int)(a.arg & 0xffff); r = -1; } else r = __real_epoll_ctl(ep, op, fd, ev);
   if (g_io_hook) { int e = errno; struct sim_io_rec rec{SYS_EPOLL_CTL, fd, (long)op | ((long)(ev ? ev->events : 0) << 8), r, r < 0 ? e : 0}; g_io_hook(&rec, g_io_arg); errno = e; }
   return r;
 }
